@@ -74,3 +74,20 @@ func (un *UntrustedNode) VerifDrainOutgoingFor(d time.Duration) int {
 	}
 	return n
 }
+
+// VerifScanning: scan() has set its flag (unsynchronised read, like the code's own use of the flag).
+func (node *Node) VerifScanning() bool { return node.scanning }
+
+// VerifUntrustedAddresses returns the addresses in the node's untrusted list, or ok = false when
+// untrustedLock could not be taken (the monitor holds it, for instance while it waits in IsActive for a dial).
+func (node *Node) VerifUntrustedAddresses() ([]string, bool) {
+	if !node.untrustedLock.TryLock() {
+		return nil, false
+	}
+	defer node.untrustedLock.Unlock()
+	r := make([]string, 0, len(node.untrustedNodes))
+	for _, u := range node.untrustedNodes {
+		r = append(r, u.address)
+	}
+	return r, true
+}
